@@ -5,6 +5,7 @@ import (
 	"go/ast"
 	"go/constant"
 	"go/token"
+	"go/types"
 	"strings"
 
 	"golang.org/x/tools/go/ssa"
@@ -247,6 +248,7 @@ func runC07(p *Prog, r *Report, tier string) {
 		return
 	}
 	checkIESwitch(p, r, pk, tb, "pkg/intermediate.correlateRecords", sws[0], false, nil)
+	checkCorrelateGuards(p, r)
 	for _, c := range clausesOf(pk, sws[0], tb) {
 		if c.Default {
 			continue
@@ -274,6 +276,51 @@ func runC07(p *Prog, r *Report, tier string) {
 		}
 		r.Check(get != "" && get == set && hasIf, "R-SIBLING.correlate", fmt.Sprintf("pkg/intermediate.correlateRecords: case %s copies with Get%sValue/Set%sValue", strings.Join(c.Labels, ","), get, set), p.pos(c.Pos),
 			"same value type read and written, under a non-empty test", "the case reads and writes with accessors of different value types or copies unconditionally", true)
+	}
+}
+
+// checkCorrelateGuards: a correlated field is copied whenever the incoming value is non-empty, i.e. differs from the
+// zero value of its type. An ordering test (val > 0) is the same thing for unsigned values only.
+func checkCorrelateGuards(p *Prog, r *Report) {
+	f := p.Fn("(*pkg/intermediate.AggregationProcess).correlateRecords")
+	if f == nil {
+		return
+	}
+	n := 0
+	eachInstr(f, func(in ssa.Instruction) {
+		c, ok := in.(*ssa.Call)
+		if !ok || !c.Call.IsInvoke() || !strings.HasPrefix(c.Call.Method.Name(), "Set") || !isValueAccessor(c.Call.Method.Name()) {
+			return
+		}
+		n++
+		val := c.Call.Args[0]
+		neq, bad := false, ""
+		for _, fct := range blockFacts(in.Block()) {
+			x, op, y := fct.X, fct.Op, fct.Y
+			if y == val {
+				x, y, op = y, x, flipOp(op)
+			}
+			switch op {
+			case token.NEQ:
+				neq = true
+			case token.GTR, token.GEQ, token.LSS, token.LEQ:
+				if x != val {
+					continue
+				}
+				b, isB := val.Type().Underlying().(*types.Basic)
+				z, isZ := constInt(y)
+				if isB && b.Info()&types.IsUnsigned != 0 && op == token.GTR && isZ && z == 0 {
+					neq = true // val > 0 on an unsigned value is val != 0
+					continue
+				}
+				bad = fmt.Sprintf("%s %s %s", val.Name(), op, y.Name())
+			}
+		}
+		r.Check(neq && bad == "", "R-SIBLING.correlate", fmt.Sprintf("pkg/intermediate.correlateRecords: %s guarded by a non-empty test", c.Call.Method.Name()), p.instrPos(in),
+			"copied iff the incoming value differs from the zero value", "the copy is guarded by an ordering test ("+bad+") or by no inequality at all: some non-empty values (e.g. negative ones) are treated as empty and the merged record is exported without them", true)
+	})
+	if n < 4 {
+		r.Undecided("R-SIBLING.correlate", "anchor: setter calls in correlateRecords", p.pos(f.Pos()), fmt.Sprintf("only %d found", n))
 	}
 }
 
